@@ -594,6 +594,15 @@ impl<'c, 'b> SDriver<'c, 'b> {
                 None
             }
             Ok(Err(e)) => {
+                if !at_boundary && self.shadow_out.is_empty() {
+                    // the other conversion must refuse as well
+                    let p2 = self.parser().clone();
+                    match guarded(move || p2.into_request_parser().map(|_| ())) {
+                        Ok(Err(parser::Error::Interrupted)) => {}
+                        Ok(other) => self.problem("into-request-parser-midrecord", format!("into_request_parser() off a record boundary returned {:?}", other.map_err(|e| err_kind(&e)))),
+                        Err(pm) => self.problem(&crate::ev::panic_signature(&pm), format!("into_request_parser panicked: {pm}")),
+                    }
+                }
                 if at_boundary {
                     self.problem("into-input-rejects-boundary", format!("is_record_boundary() is true but into_input() failed: {}", err_kind(&e)));
                 } else if !matches!(e, parser::Error::Interrupted) {
